@@ -10,6 +10,7 @@ CONSTANTS
   Alpha = "A"
   MaxLen = 0
   TailLen = 0
+  DeepReps = {}
 INVARIANT NotPropagationPreservesMeaning
 INVARIANT AtMostOneTopNot
 INVARIANT RenderIsWellFormed
